@@ -84,7 +84,7 @@ func balanced(s string) bool {
 }
 
 func implies(a, b string) string {
-	if a == "true" {
+	if a == "true" || a == "" {
 		return b
 	}
 	if a == "false" || b == "true" {
@@ -193,6 +193,10 @@ const preludeBase = `(set-option :produce-models true)
 (define-fun wrap1s16 ((x Int)) Int (ite (> x 32767) (- x 65536) (ite (< x (- 32768)) (+ x 65536) x)))
 (define-fun wrap1s32 ((x Int)) Int (ite (> x 2147483647) (- x 4294967296) (ite (< x (- 2147483648)) (+ x 4294967296) x)))
 (define-fun wrap1s64 ((x Int)) Int (ite (> x 9223372036854775807) (- x 18446744073709551616) (ite (< x (- 9223372036854775808)) (+ x 18446744073709551616) x)))
+(declare-fun eptr (Int Int) Int)
+(declare-fun eptr_arr (Int) Int)
+(declare-fun eptr_idx (Int) Int)
+(assert (forall ((a Int) (i Int)) (! (and (= (eptr_arr (eptr a i)) a) (= (eptr_idx (eptr a i)) i) (< (eptr a i) 0)) :pattern ((eptr a i)))))
 (declare-fun tdiv (Int Int) Int)
 (declare-fun tmod (Int Int) Int)
 (define-fun godiv ((a Int) (b Int)) Int (ite (>= a 0) (div a b) (- (div (- a) b))))
